@@ -705,8 +705,12 @@ class BGP(protocol.Protocol):
                     value = copy.deepcopy(attr)
                     value14 = value[14]
                     del value14['nlri']
+                    value14['label'] = prefix.get('label')
                     key = "{"
                     for k in sorted(prefix.keys()):
+                        if k == 'label':
+                            # not part of the route's identity (a withdrawal carries no label)
+                            continue
                         key += '"' + str(k) + '"'
                         key += ':'
                         key += '"' + str(prefix[k]) + '"'
@@ -760,6 +764,9 @@ class BGP(protocol.Protocol):
                 for prefix in attr[15]['withdraw']:
                     key = "{"
                     for k in sorted(prefix.keys()):
+                        if k == 'label':
+                            # not part of the route's identity (a withdrawal carries no label)
+                            continue
                         key += '"' + str(k) + '"'
                         key += ':'
                         key += '"' + str(prefix[k]) + '"'
@@ -805,8 +812,12 @@ class BGP(protocol.Protocol):
                     value = copy.deepcopy(attr)
                     value14 = value[14]
                     del value14['nlri']
+                    value14['label'] = prefix.get('label')
                     key = "{"
                     for k in sorted(prefix.keys()):
+                        if k == 'label':
+                            # not part of the route's identity (a withdrawal carries no label)
+                            continue
                         key += '"' + str(k) + '"'
                         key += ':'
                         key += '"' + str(prefix[k]) + '"'
@@ -847,6 +858,9 @@ class BGP(protocol.Protocol):
                 for prefix in attr[15]['withdraw']:
                     key = "{"
                     for k in sorted(prefix.keys()):
+                        if k == 'label':
+                            # not part of the route's identity (a withdrawal carries no label)
+                            continue
                         key += '"' + str(k) + '"'
                         key += ':'
                         key += '"' + str(prefix[k]) + '"'
